@@ -57,6 +57,24 @@ def congruent360(a, b):
     return abs(n - round(n)) < 1e-9
 
 
+def within_mod360(a, b, tol):
+    """|a - b| <= tol up to a multiple of 360 (the nearest multiple is the only candidate)"""
+    d = a - b
+    n = floor(d / 360 + frac(1, 2))
+    r = d - 360 * n
+    return -tol <= r and r <= tol
+
+
+def lat_step(i, surface):
+    """one CPR quantisation step of latitude for a frame of parity i"""
+    return dlat(i, surface) / TWO17
+
+
+def lon_step(nl, i, surface):
+    """one CPR quantisation step of longitude in NL band nl for a frame of parity i"""
+    return dlon(nl, i, surface) / TWO17
+
+
 # ----------------------------------------------------------------------------------------
 # native-only helpers for sampling positions inside a given NL band (cross-check / stand-in)
 def band_limits(k):
